@@ -197,6 +197,8 @@ Proof.
     exists (h, a'). split; [|reflexivity].
     rewrite map_length.
     assert (Hlen : S (length c) = length pre + S (length suf)) by (change (S (length c)) with (length (0 :: c)); rewrite Ez, app_length; reflexivity).
+    replace (n <? Z.of_nat (length c))%Z with (Z.to_nat n <? length c)
+      by (destruct (Nat.ltb_spec (Z.to_nat n) (length c)); symmetry; [apply Z.ltb_lt|apply Z.ltb_ge]; lia).
     destruct (Nat.ltb_spec (Z.to_nat n) (length c)) as [Hlt|Hge].
     + rewrite Nat.min_l in Hl by lia.
       destruct suf as [|b suf']; [cbn [length] in Hlen; lia|]. cbn [hdlink is_nil negb].
